@@ -221,6 +221,9 @@ def _exec_function(case):
     qm = model[0]
     if not isinstance(qm, QModuleMixin):
         return out.fail(f"{tag}/not-quantized", type(qm).__name__)
+    if case["seed"] % 2:
+        model.eval()  # inference users put the model in eval mode: nothing here depends on it
+        out.klass.append("eval-mode")
     if kind == "ln" and not case["hp"]["affine"]:
         model.to(dtype)  # a module without parameters has no dtype quantize() could read: the user casts it (its scale buffers) afterwards
     # scales
